@@ -50,3 +50,64 @@ def bip143_preimage(tx, script, i, amount, t):
             + enc_outpoint(tx.vin[i].prevout) + var_bytes(script) + le_bytes(amount % U64, 8)
             + le_bytes(tx.vin[i].nSequence, 4) + bip143_hash_outputs(tx, i, t)
             + le_bytes(tx.nLockTime, 4) + le_bytes(t, 4))
+
+
+# ---- legacy (pre-segwit) signature hash: the original consensus algorithm ----------------------
+from specs.script import op_ok, next_i, parses_from
+from pyvc.dsl import le_bytes as _le
+
+
+@spec(recursive=True, sig=[Bytes, Int], ret=Bytes)
+def strip_codesep_from(s, i):
+    """the operations of s from offset i on, without the OP_CODESEPARATORs (0xab)"""
+    if i >= len(s):
+        return b''
+    if not op_ok(s, i):
+        return b''
+    if s[i] == 0xab:
+        return strip_codesep_from(s, next_i(s, i))
+    return s[i:next_i(s, i)] + strip_codesep_from(s, next_i(s, i))
+
+
+def ref_legacy_sighash(script, tx, i, t):
+    """(digest, error flag) of the original SignatureHash, written from the consensus algorithm;
+    tx is any transaction object of the library (only its field values are read)"""
+    import hashlib
+
+    def cs(n):
+        if n < 0xfd:
+            return bytes([n])
+        if n <= 0xffff:
+            return b'\xfd' + n.to_bytes(2, 'little')
+        if n <= 0xffffffff:
+            return b'\xfe' + n.to_bytes(4, 'little')
+        return b'\xff' + n.to_bytes(8, 'little')
+    one = b'\x01' + b'\x00' * 31
+    if i >= len(tx.vin):
+        return one, True
+    sc = bytes(strip_codesep_from(bytes(script), 0))
+    base = t & 0x1f
+    ins = []
+    for k, txin in enumerate(tx.vin):
+        seq = txin.nSequence
+        if k != i and base in (2, 3):
+            seq = 0
+        ins.append((bytes(txin.prevout.hash), txin.prevout.n, sc if k == i else b'', seq))
+    if base == 2:
+        outs = []
+    elif base == 3:
+        if i >= len(tx.vout):
+            return one, True
+        outs = [(-1, b'')] * i + [(tx.vout[i].nValue, bytes(tx.vout[i].scriptPubKey))]
+    else:
+        outs = [(o.nValue, bytes(o.scriptPubKey)) for o in tx.vout]
+    if t & 0x80:
+        ins = [ins[i]]
+    pre = (tx.nVersion % 2**32).to_bytes(4, 'little') + cs(len(ins))
+    for (h, n, s, q) in ins:
+        pre += h + n.to_bytes(4, 'little') + cs(len(s)) + s + q.to_bytes(4, 'little')
+    pre += cs(len(outs))
+    for (v, s) in outs:
+        pre += (v % 2**64).to_bytes(8, 'little') + cs(len(s)) + s
+    pre += tx.nLockTime.to_bytes(4, 'little') + (t % 2**32).to_bytes(4, 'little')
+    return hashlib.sha256(hashlib.sha256(pre).digest()).digest(), False
